@@ -326,6 +326,119 @@ def filterLogsQuery (H : HashFn) (index : List (List Bytes)) (chain : List Block
       else ([], b)
     r.1 ++ unindexedLogs H chain c e (e + 1 - r.2) r.2
 
+/-! ## common/bitutil/compress.go — how a section bit vector is stored (`Commit`: `WriteBloomBits(…, CompressBytes(bits))`) and read
+    back (`startBloomHandlers`: `DecompressBytes(GetBloomBits(…), sectionSize/8)`) -/
+
+inductive ZErr where
+  | missingData | unreferencedData | exceededTarget | zeroContent
+deriving DecidableEq, Repr
+
+/-- one byte of a bitset, most significant bit first. -/
+def bitsByte (b0 b1 b2 b3 b4 b5 b6 b7 : Bool) : UInt8 :=
+  (if b0 then 0x80 else 0) ||| (if b1 then 0x40 else 0) ||| (if b2 then 0x20 else 0) ||| (if b3 then 0x10 else 0) |||
+  (if b4 then 0x08 else 0) ||| (if b5 then 0x04 else 0) ||| (if b6 then 0x02 else 0) ||| (if b7 then 0x01 else 0)
+
+/-- `nonZeroBitset[i/8] |= 1 << (7 - i%8)` for every set position: `(len+7)/8` bytes. -/
+def packBits (l : List Bool) : Bytes :=
+  (List.range ((l.length + 7) / 8)).map (fun k =>
+    bitsByte (l.getD (8 * k) false) (l.getD (8 * k + 1) false) (l.getD (8 * k + 2) false) (l.getD (8 * k + 3) false)
+      (l.getD (8 * k + 4) false) (l.getD (8 * k + 5) false) (l.getD (8 * k + 6) false) (l.getD (8 * k + 7) false))
+
+/-- `bitsetEncodeBytes` (first argument = fuel ≥ length; the bitset is 8 times shorter). -/
+def bitsetEncodeF : Nat → Bytes → Bytes
+  | 0, _ => []
+  | f + 1, data =>
+    if data.length = 0 then []
+    else if data.length = 1 then (if data.getD 0 0 == 0 then [] else data)
+    else
+      let nonZeroBytes := data.filter (fun b => b != 0)
+      if nonZeroBytes.length == 0 then []
+      else bitsetEncodeF f (packBits (data.map (fun b => b != 0))) ++ nonZeroBytes
+
+def bitsetEncodeBytes (data : Bytes) : Bytes := bitsetEncodeF data.length data
+
+/-- `CompressBytes`: the encoding is kept only when it is strictly smaller than the input. -/
+def compressBytes (data : Bytes) : Bytes :=
+  let out := bitsetEncodeBytes data
+  if out.length < data.length then out else data
+
+/-- the bits of a decoded bitset, `8·len` of them (`nonZeroBitset[i/8] & (1 << (7 - i%8)) != 0`). -/
+def bitsOf (v : Bytes) : List Bool := (List.range (8 * v.length)).map (vecBit v)
+
+/-- the distribution loop of `bitsetDecodePartialBytes`: position `i`, remaining input `rest`; returns the output from position
+    `i` on and the number of input bytes consumed. -/
+def distribute (target : Nat) : List Bool → Nat → Bytes → Except ZErr (Bytes × Nat)
+  | [], i, _ => .ok (List.replicate (target - i) 0, 0)
+  | b :: bs, i, rest =>
+    if b then
+      match rest with
+      | [] => .error .missingData
+      | d :: rest' =>
+        if i ≥ target then .error .exceededTarget
+        else if d == 0 then .error .zeroContent
+        else match distribute target bs (i + 1) rest' with
+          | .error e => .error e
+          | .ok (out, c) => .ok (d :: out, c + 1)
+    else match distribute target bs (i + 1) rest with
+      | .error e => .error e
+      | .ok (out, c) => .ok ((if i < target then [0] else []) ++ out, c)
+
+/-- `bitsetDecodePartialBytes` (first argument = fuel ≥ target). -/
+def bitsetDecodePartialF : Nat → Bytes → Nat → Except ZErr (Bytes × Nat)
+  | 0, _, _ => .ok ([], 0)
+  | f + 1, data, target =>
+    if target = 0 then .ok ([], 0)
+    else if data.length = 0 then .ok (List.replicate target 0, 0)
+    else if target = 1 then
+      let d := data.getD 0 0
+      if d != 0 then .ok ([d], 1) else .ok ([d], 0)
+    else match bitsetDecodePartialF f data ((target + 7) / 8) with
+      | .error e => .error e
+      | .ok (nonZeroBitset, ptr) =>
+        match distribute target (bitsOf nonZeroBitset) 0 (data.drop ptr) with
+        | .error e => .error e
+        | .ok (out, c) => .ok (out, ptr + c)
+
+/-- `DecompressBytes(data, target)`: an input of exactly `target` bytes is taken as stored raw. -/
+def decompressBytes (data : Bytes) (target : Nat) : Except ZErr Bytes :=
+  if data.length > target then .error .exceededTarget
+  else if data.length = target then .ok data
+  else match bitsetDecodePartialF target data target with
+    | .error e => .error e
+    | .ok (out, size) => if size != data.length then .error .unreferencedData else .ok out
+
+/-- what a retrieval hands to the matcher for a vector that was committed: `DecompressBytes(CompressBytes(v), size/8)`. -/
+def storedVec (size : Nat) (v : Bytes) : Except ZErr Bytes := decompressBytes (compressBytes v) (size / 8)
+
+/-! ## core/chain_indexer.go : processSection -/
+
+/-- a header as the indexer sees it: its hash, its parent hash, its bloom. -/
+structure Hdr where
+  hash : Nat
+  parent : Nat
+  bloom : Bytes
+deriving DecidableEq, Repr
+
+inductive IdxErr where
+  | reorged | gen (e : GenErr)
+deriving DecidableEq, Repr
+
+/-- the walk of `processSection`: `walk` are the headers the successive `GetCanonicalHash/GetHeader` reads returned (the chain
+    mutex is not held, so they need not belong to one chain); every header must link to the previously walked one. -/
+def walkSection : Nat → List Hdr → Except IdxErr Nat
+  | lastHead, [] => .ok lastHead
+  | lastHead, h :: rest => if h.parent != lastHead then .error .reorged else walkSection h.hash rest
+
+/-- `processSection(section, lastHead)`: Reset, the checked walk with `Process` on every header, `Commit`; returns the new section
+    head (hash of the last header walked) and the 2048 bit vectors. -/
+def processSection (size : Nat) (lastHead : Nat) (walk : List Hdr) : Except IdxErr (Nat × List Bytes) :=
+  match walkSection lastHead walk with
+  | .error e => .error e
+  | .ok newHead =>
+    match generateSection size (walk.map (·.bloom)) with
+    | .error e => .error (.gen e)
+    | .ok vs => .ok (newHead, vs)
+
 /-! ## Spec: brute-force scan of the canonical receipts in chain order -/
 
 namespace Spec
